@@ -503,3 +503,39 @@ func init() {
 		return iface{}
 	}
 }
+
+func init() {
+	// crossplane-runtime's fieldpath.removeSourceDuplicates builds its result
+	// with reflect.New / reflect.Append, which the interpreter's reflection
+	// does not cover: for two []any it returns the source elements that are
+	// not deeply equal to any destination element (anything else: the source).
+	externals["github.com/crossplane/crossplane-runtime/pkg/fieldpath.removeSourceDuplicates"] = func(fr *frame, args []value) value {
+		dst, ok1 := args[0].(iface)
+		src, ok2 := args[1].(iface)
+		if !ok1 || !ok2 {
+			return args[1]
+		}
+		ds, ok1 := dst.v.([]value)
+		ss, ok2 := src.v.([]value)
+		if !ok1 || !ok2 {
+			return args[1]
+		}
+		out := []value{}
+		for _, e := range ss {
+			found := false
+			for _, d := range ds {
+				if fr.i.condValue(boolValue(deepEqualTerm(e, d, map[[2]*value]bool{}))) {
+					found = true
+					break
+				}
+			}
+			if !found {
+				out = append(out, e)
+			}
+		}
+		if len(out) == 0 {
+			out = nil // reflect.New(slice).Elem() with nothing appended is a nil slice
+		}
+		return iface{src.t, out}
+	}
+}
